@@ -109,8 +109,12 @@ def cv_c01(tier):
     J += [(p, min(P, 2 if q else 3), E) for (p, P, E) in c5[:: (3 if q else 1)]]
     return J
 
+CV_SAME_NOTE = ['Cwe|Cwe', 'Cwe|Cre', 'Cwde|Cwe', 'Cwc|Cwc', 'Cwe|Cwc|L', 'Cwe|Cre|L', 'CwN|CwN|N', 'Cwe|Cwe|Cwe']
+
 def cv_c05(tier):
     J = []
+    # several cancellable waits on the SAME note, ended by the note's own expiry / notification at the same moment
+    for p in CV_SAME_NOTE: J.append((p, (2 if p.count('|') == 1 else 1) if tier == 'quick' else (4 if p.count('|') == 1 else 2), 1))
     timed = ['Cwd', 'Cwp', 'Crd', 'Crp', 'Cgd', 'Cnd', 'Cnp', 'Wwd', 'Wrd']
     noted = ['CwN', 'CrN', 'CgN', 'Cwx', 'Crx', 'Cwe', 'Cre', 'Cwc', 'CwdN', 'Cwde', 'Cwdc', 'Cwpx', 'CrdN']
     Pq = 3 if tier == 'quick' else 5
@@ -151,6 +155,10 @@ def mw_c06(tier):
                     J.append(('Mw%s|Mw%s|Mw%s|%s' % (x, y, z, k), 1 if tier == 'quick' else 2, 0))
     for p in ['Mr1|Mw6|Mr5|@3 B', 'Mw3|Mr6|Mw5|@3 B', 'Mr6|Mr1|Mw5|@3 A', 'Mr4|Mw1|Mr6|@3 A', 'Mw6|Mr6|Mw1|@3 B A']:
         J.append((p, 1 if tier == 'quick' else 2, 0))
+    # a condition made true and then false again before the woken waiter has run: the waiter re-queues at the
+    # front and must still pass the scan on to the waiters behind it
+    for p in ['Mw1|Mw2|@2 A B|@2 a0', 'Mw1|Mr2|@2 B A|@2 a0', 'Mw2|Mw1|@2 A B|@2 b0', 'Mw1|Mw2|Mw2|@3 A B|@3 a0', 'Mr1|Mw2|@2 A B|@2 a0', 'Mw1|Mw2|@2 A B a0', 'Mw1|Mw2|@2 A|@2 a0 B']:
+        J.append((p, 2 if p.count('|') <= 3 else 1, 0))
     # designated-waker / all-false paths: a woken waiter whose own section ends without wake-up
     for p in ['Mw1|Mw2z|@2 B|@2 A', 'Mr1|Mw2z|@2 B|@2 A', 'Mw1|Mr2|@2 A|@2 B', 'Mw1|Mw3|Mw4|@3 A', 'Mr1|Mr3|Mw2|@3 B A', 'Mw1|Mw2|Mw1|@3 A B',
               'Mw1|V|@2 S A', 'Mr1|V|@2 A|@2 S', 'Mw2|Mw1|@2 z|@2 A B', 'Mw1|Mw1|@2 R|@2 A', 'Mr1|Mr1|@2 R|@2 A', 'Mw1|Mw5|@2 Z|@2 A']:
@@ -247,7 +255,7 @@ def note_c08(tier):
         if tier == 'thorough' or h.count('p') == 0:
             for l in live:
                 J.append(('%s:n%s %s' % (h, l, ' '.join('i' + x for x in live)), 0, 0))
-    conc = ['----:nR|kR', '--xx:nR|kR|kR', '----:nC|kC|wG', '----:nR|kC|kS', '--xx:nR|kR|iR', '----:nR|iG|wG', '----:nC|iG iR|wG', '----:nC|wG|wS', '--1-:wG|iG|iC', '-1--:wG|weG|iR', '----:nR|nR|iC', '----:nR|nC|wG', '----:nC|nG|iG iG',
+    conc = ['----:nR|nC|wR', '----:nC|nG|wC', '----:nR|nC|iR iR', '----:nR|nS|wR', '----:nR|fC|wR', '----:nR|nC|wR|wC', '----:nR|kR', '--xx:nR|kR|kR', '----:nC|kC|wG', '----:nR|kC|kS', '--xx:nR|kR|iR', '----:nR|iG|wG', '----:nC|iG iR|wG', '----:nC|wG|wS', '--1-:wG|iG|iC', '-1--:wG|weG|iR', '----:nR|nR|iC', '----:nR|nC|wG', '----:nC|nG|iG iG',
             '----:nR|kC|iG', '----:nG|kC|wG', '-2-1:wS|wdR|iS', '----:nR|wC|wG|wS', '--2-:nC|wG|wdG', '1---:wG|wS|iR', '----:iG iG|nR|iG']
     for p in conc:
         J.append((p, (2 if p.count('|') < 3 else 1) if tier == 'quick' else (3 if p.count('|') < 3 else 2), 1 if any(c in p.split(':')[0] for c in '12') or 'wd' in p or 'we' in p else 0))
